@@ -17,7 +17,7 @@ import UnicLocale.Props.C15
 import UnicLocale.Spec.Inv
 import UnicLocale.Spec.AbsOps
 
-namespace UL
+namespace UL.Rf
 
 /-! ### constructors of the extension subtags are exact -/
 
@@ -429,4 +429,4 @@ theorem display_eq_canon (x : Locale) : Locale.display x = Spec.canon (Spec.toLo
   rw [display_eq_join_tokens, tokens_eq_canonTokens]
   rfl
 
-end UL
+end UL.Rf
